@@ -44,7 +44,8 @@ Cfg0 == [protoTime |-> FALSE, protoArrays |-> FALSE, nullProto |-> FALSE, flatUn
 
 \* C17: does the instance's registration for the marked type apply at this (type, option) position?
 \* cfg.marker: "none" | "plain" (registered for the type) | "tagged" (registered under the tag mk) | "both"
-Marker(cfg, T) == IF T.mk THEN cfg.marker \in {"tagged", "both"} ELSE cfg.marker \in {"plain", "both"}
+\*             | "kind" (registered for the basic type int32, not for the named type: the named type falls back to its kind's codec)
+Marker(cfg, T) == IF T.mk THEN cfg.marker \in {"tagged", "both"} ELSE cfg.marker \in {"plain", "both", "kind"}
 \* wire type of a baked type
 RECURSIVE WT(_, _)
 WT(cfg, T0) == LET T == Resolve(T0) IN
